@@ -42,7 +42,14 @@ def _direct(meta, func):
 
 
 def correspondence(tier, seed, corpus):
-    return [S.run_stream("c17_classgen", tier, seed + 17, on_case=_direct)]
+    st = S.run_stream("c17_classgen", tier, seed + 17, on_case=_direct)
+    # regression case of the repaired F-C17b (reported as a violation if it ever fails again)
+    reg = S.regression_linear_adjoint()
+    st["problems"] = (reg + st["problems"])[:5]
+    st["n_problems"] += len(reg)
+    st["evaluations"] += 1
+    st["distribution"]["regression_cases"] = {"F-C17b (LinearOperator adjoint equalities named + tabulated)": "fails" if reg else "passes"}
+    return [st]
 
 
 def search(tier, seed):
@@ -66,21 +73,7 @@ def search(tier, seed):
     return None
 
 
-def _linear_cross():
-    """F-C17b"""
-    from PEPit import PEP, Point
-    from PEPit.operators import LinearOperator
-    pep = PEP()
-    M = pep.declare_function(LinearOperator, L=1.)
-    M.gradient(Point())
-    M.T.gradient(Point())
-    M.set_class_constraints()
-    names = [c.get_name() for c in M.list_of_class_constraints]
-    still = (names == [None]) and len(M.tables_of_constraints) == 0
-    return still, "names=%r tables=%r" % (names, list(M.tables_of_constraints))
-
-
-REPLAYS = {"F-C17b": _linear_cross}
+REPLAYS = {}
 
 
 def known_findings(known):
@@ -104,6 +97,8 @@ def is_known(payload, known):
 
 def replay(payload):
     case = payload.get("case")
+    if payload.get("kind") == "regression-F-C17b":
+        return bool(S.regression_linear_adjoint())
     if payload.get("kind") == "implementation-raised" and case:
         try:
             S.rebuild(case)
